@@ -4,6 +4,7 @@
 
 use crate::common::{run_self, Ctx};
 use crate::sketchers::{catalogue, Applied, Inst, Kind, Op};
+use rayon::prelude::*;
 use serde_json::{json, Value};
 use std::collections::BTreeMap;
 use std::sync::{Arc, Barrier};
@@ -247,6 +248,82 @@ fn check_threads(ctx: &Ctx, kinds: &[Kind], st: &mut Stats) {
     }
 }
 
+/// Slice entry points of the densified sketchers on a long slice whose bin minimum is a *tie* between two different items
+/// (f32 values have 24 bits: ties exist in any large stream, and the item processed last owns the bin): the result must be
+/// the one of the sequential item-wise run, whatever pool the call runs in.  Repeated under pools of 1, 2, 4 and 16 workers
+/// (sampling of real schedules, not exhaustive).
+fn check_tied_slices(ctx: &Ctx, st: &mut Stats) {
+    use crate::dens::Dens;
+    use probminhash::densminhash::{OptDensMinHash, RevOptDensMinHash};
+    fn one<S: Dens>(ctx: &Ctx, tag: &str, st: &mut Stats) {
+        let n: u64 = 300_000;
+        let base = 77_000_000u64;
+        // value of every candidate item on a one-bin sketcher
+        let mut rs: Vec<(u64, u64)> = (base..base + n)
+            .into_par_iter()
+            .map(|x| {
+                let mut s = S::new(1);
+                s.sketch(&x);
+                (s.state().hs[0], x)
+            })
+            .collect();
+        rs.sort();
+        // the smallest value shared by two items; keep the items from there on: the tie is the minimum of the stream
+        let Some(i) = (0..rs.len() - 1).find(|i| rs[*i].0 == rs[*i + 1].0) else {
+            ctx.note(format!("{}: no tie among {} items", tag, n));
+            return;
+        };
+        let (t1, t2) = (rs[i].1, rs[i + 1].1);
+        let mut items: Vec<u64> = rs[i + 2..].iter().filter(|r| r.0 > rs[i].0).map(|r| r.1).collect();
+        items.sort();
+        let k = items.len();
+        items.insert(k / 3, t1);
+        items.insert(2 * k / 3, t2);
+        let reference = {
+            let mut s = S::new(1);
+            for x in &items {
+                s.sketch(x);
+            }
+            s.end_sketch();
+            s.views().v64
+        };
+        let mut distinct = std::collections::BTreeSet::new();
+        for workers in [1usize, 2, 4, 16] {
+            let pool = rayon::ThreadPoolBuilder::new().num_threads(workers).build().unwrap();
+            for _ in 0..(if workers == 1 { 2 } else { 12 }) {
+                let r = pool.install(|| {
+                    crate::common::guarded_mut(|| {
+                        let mut s = S::new(1);
+                        s.sketch_slice(&items).map(|_| s.views().v64)
+                    })
+                });
+                st.thread_rounds += 1;
+                match r {
+                    Ok(Ok(v)) => {
+                        distinct.insert(v);
+                    }
+                    other => {
+                        ctx.violation(&format!("tied-slice:{}", tag), &format!("{}: sketch_slice on {} items failed: {:?}", S::name(), items.len(), other.map(|x| x.map(|_| ()))), json!({"kind": "tied-slice", "sketcher": tag}));
+                        return;
+                    }
+                }
+            }
+        }
+        if distinct.len() != 1 || !distinct.contains(&reference) {
+            ctx.violation(
+                &format!("tied-slice:{}", tag),
+                &format!(
+                    "{} m=1: sketch_slice on a slice of {} items whose smallest value is shared by items {} and {} gave {} different u64 sketches over 38 runs under pools of 1, 2, 4 and 16 workers (sequential item-wise result {:x?}, observed {:x?})",
+                    S::name(), items.len(), t1, t2, distinct.len(), reference, distinct
+                ),
+                json!({"kind": "tied-slice", "sketcher": tag}),
+            );
+        }
+    }
+    one::<OptDensMinHash<f32, u64, fnv::FnvHasher>>(ctx, "opt32", st);
+    one::<RevOptDensMinHash<f32, u64, fnv::FnvHasher>>(ctx, "rev32", st);
+}
+
 pub fn child(_args: &[String]) -> i32 {
     let kinds = catalogue(&[2, 16], false);
     let ops = script(0);
@@ -305,6 +382,7 @@ pub fn run(ctx: &Ctx) -> i32 {
     check_interleavings(ctx, &kinds, &mut st);
     check_large_hashmaps(ctx, &mut st);
     check_threads(ctx, &kinds, &mut st);
+    check_tied_slices(ctx, &mut st);
     check_processes(ctx, &mut st);
     println!(
         "C12 sketcher kinds={} interleavings={} calls={} thread rounds={} process digests={} distinct results={}",
@@ -318,7 +396,7 @@ pub fn run(ctx: &Ctx) -> i32 {
     let coverage = json!({
         "evaluations": st.interleavings + st.thread_rounds + st.process_lines,
         "distinct_nontrivial": st.distinct_obs.len(),
-        "rule": "for every sketcher type x parameterisation of the catalogue (all 9 sketcher types, several sizes/register types/entry points): ALL interleavings at call granularity of the call sequences (construction included) of 2 instances x 4-5 steps and 3 instances x 3-4 steps, same input and different inputs, each instance compared with its solo run; then 40 (200) weighted sets of 2000 items through the std-HashMap entry points of the four ProbMinHash variants on two instances each (independent iteration orders; also part of the process digests); then 20 (100) rounds of 2..16 free-running threads (sampling, not exhaustive); then 8 (32) process launches whose digests must agree bit for bit (HashMap entry points included); distinct = distinct solo results",
+        "rule": "for every sketcher type x parameterisation of the catalogue (all 9 sketcher types, several sizes/register types/entry points): ALL interleavings at call granularity of the call sequences (construction included) of 2 instances x 4-5 steps and 3 instances x 3-4 steps, same input and different inputs, each instance compared with its solo run; then 40 (200) weighted sets of 2000 items through the std-HashMap entry points of the four ProbMinHash variants on two instances each (independent iteration orders; also part of the process digests); then 20 (100) rounds of 2..16 free-running threads (sampling, not exhaustive); then the slice entry point of both f32 densified sketchers on a 300000-item slice whose minimum is a tie between two items, 38 runs under rayon pools of 1, 2, 4, 16 workers against the sequential item-wise result (sampling); then 8 (32) process launches whose digests must agree bit for bit (HashMap entry points included); distinct = distinct solo results",
         "samples": [
             {"interleaving": {"sketcher": "ProbOrdMinHash2 m=16 l=2", "n": 2, "order": [0, 1, 1, 0, 0, 1, 1, 0]}},
             {"script": format!("{:?}", script(0))},
@@ -343,6 +421,9 @@ pub fn run(ctx: &Ctx) -> i32 {
 }
 
 pub fn replay(_ctx: &Ctx, case: &Value) -> Result<(bool, String), String> {
+    if case["kind"].as_str() == Some("tied-slice") {
+        return Err("re-derived by running the check itself (schedule sampling)".into());
+    }
     let name = case["sketcher"].as_str().ok_or("sketcher")?.to_string();
     let kinds = catalogue(&[1, 2, 5, 16, 64], false);
     let kind = kinds.iter().find(|k| k.name == name).ok_or("unknown sketcher kind")?;
